@@ -82,6 +82,7 @@ type VC struct {
 	w        *World
 	root     *ssa.Function
 	items    []Item
+	decls    []string // declarations that survive loop-trial rollbacks
 	nframe   int
 	nname    int
 	closures []*Closure
@@ -96,11 +97,14 @@ type VC struct {
 	used    map[string]bool // contracts used (callee names)
 	trusted map[string]bool // extern models used
 	specDepth int
+	termSorts map[string]string
+	lastLatch map[string][]string
+	noAssumeObs bool
 }
 
 func newVC(w *World, root *ssa.Function) *VC {
 	return &VC{w: w, root: root, declared: map[string]bool{}, obSeen: map[string]int{},
-		inlined: map[string]bool{}, used: map[string]bool{}, trusted: map[string]bool{}}
+		inlined: map[string]bool{}, used: map[string]bool{}, trusted: map[string]bool{}, termSorts: map[string]string{}, lastLatch: map[string][]string{}}
 }
 
 func (vc *VC) cmd(s string) { vc.items = append(vc.items, Item{Cmd: s}) }
@@ -162,7 +166,7 @@ func (vc *VC) arr(st *State, l Leaf) string {
 	n := l.Key + "_0"
 	if !vc.declared[n] {
 		vc.declared[n] = true
-		vc.cmd(fmt.Sprintf("(declare-const %s (Array Int %s))", n, l.Sort))
+		vc.decls = append(vc.decls, fmt.Sprintf("(declare-const %s (Array Int %s))", n, l.Sort))
 	}
 	return n
 }
@@ -201,6 +205,8 @@ type World struct {
 	arrInit   map[*ssa.Global][]string // constant element terms of package-level arrays
 	strInit   map[*ssa.Global]string
 	rpoCache  map[*ssa.Function][]*ssa.BasicBlock
+	prop      string
+	unroll    int // >0: loops are unrolled this many times instead of cut (replay aid only)
 }
 
 const staticEnd = 1 << 24
@@ -298,11 +304,18 @@ const prelude = `(set-option :produce-models true)
 
 // script renders the full incremental script: each obligation is checked
 // under push/pop and then assumed.
-func (vc *VC) script(timeoutMs int) string {
+func (vc *VC) script(relaxed bool) string {
 	var b strings.Builder
 	b.WriteString(prelude)
+	for _, d := range vc.decls {
+		b.WriteString(d)
+		b.WriteString("\n")
+	}
 	for _, it := range vc.items {
 		if it.Ob == nil {
+			if relaxed && isQuantified(it.Cmd) {
+				continue
+			}
 			b.WriteString(it.Cmd)
 			b.WriteString("\n")
 			continue
@@ -315,11 +328,18 @@ func (vc *VC) script(timeoutMs int) string {
 }
 
 // standalone renders a self-contained query for one obligation.
-func (vc *VC) standalone(target *Obligation, model bool, extra []string) string {
+func (vc *VC) standalone(target *Obligation, relaxed bool, extra []string) string {
 	var b strings.Builder
 	b.WriteString(prelude)
+	for _, d := range vc.decls {
+		b.WriteString(d)
+		b.WriteString("\n")
+	}
 	for _, it := range vc.items {
 		if it.Ob == nil {
+			if relaxed && isQuantified(it.Cmd) {
+				continue
+			}
 			b.WriteString(it.Cmd)
 			b.WriteString("\n")
 			continue
@@ -329,16 +349,15 @@ func (vc *VC) standalone(target *Obligation, model bool, extra []string) string 
 			fmt.Fprintf(&b, "(assert %s)\n", and(ob.Reach, not(ob.Goal)))
 			break
 		}
-		fmt.Fprintf(&b, "(assert %s)\n", imp(ob.Reach, ob.Goal))
+		if !vc.noAssumeObs {
+			fmt.Fprintf(&b, "(assert %s)\n", imp(ob.Reach, ob.Goal))
+		}
 	}
 	for _, e := range extra {
 		b.WriteString(e)
 		b.WriteString("\n")
 	}
 	b.WriteString("(check-sat)\n")
-	if model {
-		b.WriteString("(get-model)\n")
-	}
 	return b.String()
 }
 
@@ -349,4 +368,15 @@ func sortedKeys(m map[string]bool) []string {
 	}
 	sort.Strings(out)
 	return out
+}
+
+// staticFrame states that package-level variables (static area) are not
+// changed by a havoc: no function of the package stores to a global (checked
+// by the write-freedom scan, trusted base item 5).
+func (vc *VC) staticFrame(nw, old string) {
+	vc.assume(fmt.Sprintf("(forall ((a Int)) (! (=> (< a %d) (= (select %s a) (select %s a))) :pattern ((select %s a))))", staticEnd, nw, old, nw))
+}
+
+func isQuantified(cmd string) bool {
+	return strings.Contains(cmd, "(forall ") || strings.Contains(cmd, "(exists ")
 }
